@@ -847,9 +847,10 @@ Print Assumptions C03_reverse_reaction.
     (a) the reactant side of g has the SUBSTRATE's element counts (hydrogen = atoms + counts), total charge and — between
         substrate atoms — exactly the substrate's bonds;
     (b) if the rule is balanced both sides of g have the same element counts and charge;
-    (c) the changed bonds of T are exactly the m-images of the rule's changed bonds with equal order changes, and g has in
-        addition only the donor-H / H-recipient bonds of the re-materialised hydrogens, each joining a donor and a
-        recipient of ONE hydrogen-transfer group. *)
+    (c) every matched atom of T carries the rule atom's element, hydrogen-count change and charges and every other atom is
+        unchanged; the changed bonds of T are exactly the m-images of the rule's changed bonds with equal order changes,
+        and g has in addition only the donor-H / H-recipient bonds of the re-materialised hydrogens, each joining a donor
+        and a recipient of ONE hydrogen-transfer group. *)
 Theorem C03_its_list_instances : forall (inp : rin) (rc : its) (l r : molg) (gs : list its),
   i_rule inp = Some (rc, l, r) -> wf_hostb (i_host inp) = true -> wf_rcb rc = true ->
   forallb (call_okb (has_XH l) (i_host inp) rc) (i_calls inp) = true ->
@@ -865,6 +866,10 @@ Theorem C03_its_list_instances : forall (inp : rin) (rc : its) (l r : molg) (gs 
     (balancedb rc = true ->
        (forall e : N, elem_count e (fst (its_decompose g)) = elem_count e (snd (its_decompose g))) /\
        total_charge (fst (its_decompose g)) = total_charge (snd (its_decompose g))) /\
+    (forall (p : N) (pn : inode) (h : N), In (p, pn) (gnodes rc) -> mget m p = Some h ->
+       exists a : inode, label T h = Some a /\ a_el (iG a) = a_el (iG pn) /\ a_el (iH a) = a_el (iG pn) /\ dH a = dH pn /\
+                         a_ch (iG a) = a_ch (iG pn) /\ a_ch (iH a) = a_ch (iH pn)) /\
+    (forall (h : N) (a : inode), ~ In h (map snd m) -> label T h = Some a -> iH a = iG a) /\
     Permutation (changed_bonds T) (image_changed_bonds m rc) /\
     (forall ms : list (N * N), explicit_h_ord (ord_of tbl) T = Some (g, ms) ->
        changed_bonds g = changed_bonds T ++ map bond_key (new_edges (N.succ (max_id T)) ms) /\
